@@ -34,7 +34,7 @@ tr = c18.one_run(ctx, lc, 1, "KEKEKEGGKEKE", (4, 0, 10), 100, 500, 2, 7, 30000)
 tr.pop("case"); tr.pop("finished")
 def wl(trace):
     c = common.Ctx("SELFTEST", "quick", 0, ctx.repo); c.work = ctx.work
-    v, _ = traces.validate(c, "Trace_WL", [trace], spec="TSpec", invariants=["RunInvariants"], tag="st")
+    v, _ = traces.validate(c, "Trace_WL", [trace], spec="TSpec", invariants=["RunInvariants"], tag="st", constants=c18.WLARITH)
     return v[1]
 report("2a. recorded WL run (%d events) accepted" % len(tr["ev"]), wl(tr)[0] == "accept")
 steps = [i for i, e in enumerate(tr["ev"]) if e["ev"] == "step"]
@@ -86,7 +86,7 @@ for mod, cfgf, consts, inv, spec in [("MC_Object", "cov_obj.cfg", c15.obj_consta
     acts = {a: n for a, n in res.coverage.items() if a[0].isupper()}
     zero = [a for a, n in acts.items() if n == 0]
     report("6. coverage %s: %d actions, none with zero count" % (mod, len(acts)), acts and not zero, str(zero))
-cfg = tlc.write_cfg(os.path.join(ctx.work, "cov_wl.cfg"), constants={"MaxDepth": 14}, constraints=["Depth"], invariants=["GIncrement"])
+cfg = tlc.write_cfg(os.path.join(ctx.work, "cov_wl.cfg"), constants=dict({"MaxDepth": 14}, **c18.WLARITH), constraints=["Depth"], invariants=["GIncrement"])
 res = tlc.run_tlc("MC_WL", cfg, ctx.work, coverage=True, tag="covwl")
 zero = [a for a, n in res.coverage.items() if n == 0 and a in ("WLStep", "FlatCheck")]
 report("6. coverage MC_WL: WLStep and FlatCheck both taken", not zero and "FlatCheck" in res.coverage, str(res.coverage))
